@@ -295,6 +295,24 @@ class Run:
                         self.drain_trace()
                         self.observe()
                         self.obs[-1]["parked_at"] = op[1]
+                    elif op[0] == "HIDE":
+                        # read fault: the <uid>.zones file of a segment (op[1] = position among the existing segment
+                        # directories, op[2] = event type) becomes unreadable (renamed) until UNHIDE
+                        base_d = os.path.join(self.eng.root, "cols", "shard-0")
+                        segs = sorted(d for d in os.listdir(base_d) if d.isdigit())
+                        rev = {v: k for k, v in self.uidmap.items()}
+                        self.hidden = getattr(self, "hidden", [])
+                        if segs and op[2] in rev:
+                            f = os.path.join(base_d, segs[int(op[1]) % len(segs)], rev[op[2]] + ".zones")
+                            if os.path.exists(f):
+                                os.rename(f, f + ".hidden"); self.hidden.append(f)
+                        if not self.hidden:
+                            self.notes.append("HIDE found no file")
+                    elif op[0] == "UNHIDE":
+                        for f in getattr(self, "hidden", []):
+                            if os.path.exists(f + ".hidden") and os.path.isdir(os.path.dirname(f)):
+                                os.rename(f + ".hidden", f)
+                        self.hidden = []
                     elif op[0] == "BLOCKSEG":
                         # fault: a regular file sits where the next segment directory has to be created
                         path = os.path.join(self.eng.root, "cols", "shard-0", "%05d" % int(op[1]))
